@@ -3,6 +3,7 @@ package props
 import (
 	"encoding/json"
 	"fmt"
+	"math"
 	"math/big"
 	"strconv"
 	"strings"
@@ -578,7 +579,7 @@ func checkMisc(s string) string {
 		return ""
 	}
 	if strings.HasPrefix(s, "fin:") {
-		arr, msg := evalArr("[finite("+s[4:]+")]", map[string]interface{}{"m": map[string]interface{}{"a": 1}, "t": "x"})
+		arr, msg := evalArr("[finite("+s[4:]+")]", map[string]interface{}{"m": map[string]interface{}{"a": 1}, "t": "x", "fnan": math.NaN(), "finf": math.Inf(1), "fninf": math.Inf(-1)})
 		if msg != "" {
 			return msg
 		}
@@ -592,7 +593,7 @@ func checkMisc(s string) string {
 
 // TestC18Misc: toFloat on non-numeric text; finite on non-finite and non-numeric values.
 func TestC18Misc(t *testing.T) {
-	run := h.Begin("C18", "misc", "enumerated: toFloat of clearly non-numeric text (empty, words, 'abc1', '--1', '1..2', '0x10', '1,5', 'one'; borderline spellings such as '1e' or '.' are deliberately not asserted) must be NaN; finite of 1/0, -1/0, 0/0, ln(0), sqrt(-1), strings, null, arrays, maps, booleans must be 0; every case non-trivial")
+	run := h.Begin("C18", "misc", "enumerated: toFloat of clearly non-numeric text (empty, words, 'abc1', '--1', '1..2', '0x10', '1,5', 'one'; borderline spellings such as '1e' or '.' are deliberately not asserted) must be NaN; finite of NaN / +Inf / -Inf (supplied as Go float64 data values; what 1/0 or ln(0) yield is left open), strings, null, arrays, maps, booleans must be 0; every case non-trivial")
 	defer run.End(t)
 	if i, _ := h.Shard(); i != 0 {
 		return
@@ -604,7 +605,7 @@ func TestC18Misc(t *testing.T) {
 			run.Fail("c18-misc", "nan:"+s, msg)
 		}
 	}
-	for _, e := range []string{"1/0", "-1/0", "0/0", "ln(0)", "sqrt(-1)", "'a'", "''", "'12'", "null", "[1]", "[]", "m", "true", "false", "undefinedName", "exp(100000)", "toFloat('x')"} {
+	for _, e := range []string{"fnan", "finf", "fninf", "'a'", "''", "'12'", "null", "[1]", "[]", "m", "true", "false", "undefinedName", "toFloat('x')"} {
 		run.Count(true, "finite-zero")
 		run.Sample("finite-zero", e)
 		if msg := checkMisc("fin:" + e); msg != "" {
